@@ -175,12 +175,15 @@ def run(ctx):
     ctx.cov["exhaustive"] = True
     # the listing rule scaled beyond the model's three uploads (IDs pass .9 -> .10 on one day)
     lp = os.path.join(ctx.work, "listmany.json")
-    ctx.harness(["storequery", "listmany", lp, 12 if q else 25])
+    # ... and over histories in which attempts that store nothing (rejected file, client abort, db.NewUpload + Abort /
+    # + Commit without records) lie between and after the uploads: every limit 0..n+2 and beyond, five queries
+    ctx.harness(["storequery", "listmany", lp, 12 if q else 25, 8 if q else 24])
     lm = json.load(open(lp))
     ctx.cov["listmany_runs"] = lm["runs"]
+    ctx.cov["listmany_histories"] = lm["histories"]
     ctx.cov["evaluations"] += lm["runs"]
     if lm["failures"]:
-        ctx.harness(["storequery", "listmany", lp, 12 if q else 25])
+        ctx.harness(["storequery", "listmany", lp, 12 if q else 25, 8 if q else 24])
         if not json.load(open(lp))["failures"]:
             raise vlib.Infra("listing failure over many uploads did not reproduce")
         ctx.report([dict(f, family="storequery-listmany") for f in lm["failures"][:5]], "listing over many uploads")
